@@ -56,9 +56,14 @@ func mkSeq(o string, xs []AST) AST {
 
 // A vocabulary maps the ids of FilterEnum (n1..n3, v0..v2) to concrete strings.
 // vals[0] is always "", vals[1] is a proper non-empty prefix of vals[2].
+//
+// Rel "A": vals[1] is a proper non-empty prefix of vals[2];
+// Rel "B": vals[1] is a proper substring of vals[2] but NOT a prefix of it
+// (tells hasPrefix from contains / hasSuffix / case-insensitive matching).
 type vocab struct {
 	Names [3]string `json:"names"`
 	Vals  [3]string `json:"vals"`
+	Rel   string    `json:"rel"`
 }
 
 var nameSets = [][3]string{
@@ -91,13 +96,44 @@ var valSets = [][3]string{
 	{"", "A", "Aa"},
 }
 
+// prefix structure B of FilterEnum.tla
+var valSetsB = [][3]string{
+	{"", "b", "ab"},
+	{"", "é", "aé"},
+	{"", "OR", "AND OR"},
+	{"", " ", "a "},
+	{"", "b\\", "a\"b\\"},
+	{"", "\n", "x\n"},
+	{"", "本", "日本"},
+	{"", "x", "attributes:x"},
+	{"", "0", "10"},
+	{"", "a", "Aa"}, // also: matching is case-sensitive
+	{"", "b", "abc"},
+}
+
+func init() {
+	for _, v := range valSets {
+		if v[0] != "" || v[1] == "" || !strings.HasPrefix(v[2], v[1]) || v[1] == v[2] {
+			panic("bad value set A")
+		}
+	}
+	for _, v := range valSetsB {
+		if v[0] != "" || v[1] == "" || strings.HasPrefix(v[2], v[1]) || strings.HasPrefix(v[1], v[2]) || !strings.Contains(v[2], v[1]) {
+			panic("bad value set B")
+		}
+	}
+}
+
 func pickVocab(rng *rand.Rand, api bool) vocab {
 	for {
 		i := rng.Intn(len(nameSets))
 		if api && !nameSetForAPI(i) {
 			continue
 		}
-		return vocab{Names: nameSets[i], Vals: valSets[rng.Intn(len(valSets))]}
+		if rng.Intn(3) == 0 {
+			return vocab{Names: nameSets[i], Vals: valSetsB[rng.Intn(len(valSetsB))], Rel: "B"}
+		}
+		return vocab{Names: nameSets[i], Vals: valSets[rng.Intn(len(valSets))], Rel: "A"}
 	}
 }
 
@@ -450,7 +486,7 @@ func init() {
 			add(s)
 		}
 	}
-	for _, vs := range valSets {
+	for _, vs := range append(append([][3]string{}, valSets...), valSetsB...) {
 		for _, s := range vs {
 			add(s)
 		}
